@@ -102,7 +102,7 @@ DEEP_FUNCS = set("min max sum next getattr".split())
 # callables returning a NEW container that holds the ELEMENTS of their positional arguments (shallow copies) ...
 ELEMENT_CONTAINER_FUNCS = set("""
 tuple list dict set frozenset sorted reversed iter copy.copy filter collections.OrderedDict collections.deque
-collections.defaultdict itertools.chain itertools.islice itertools.cycle itertools.tee dict.values dict.keys
+itertools.chain itertools.islice itertools.cycle itertools.tee dict.values dict.keys
 """.split())
 # ... or new tuples of the elements of their arguments (one more level)
 TUPLE_CONTAINER_FUNCS = set("""
@@ -570,6 +570,18 @@ class Program:
             return "literal"
         return "mutable"
 
+    def class_level_attr(self, attr):
+        """some loaded class binds this name in its body (a class attribute: one object shared by all instances that do
+        not shadow it)"""
+        if not hasattr(self, "_clsattrs") or self._clsattrs_n != len(self.mods):
+            names = set()
+            for cls in self.classes.values():
+                for n in cls.body:
+                    tg = n.targets if isinstance(n, ast.Assign) else [n.target] if isinstance(n, ast.AnnAssign) and n.value is not None else []
+                    names |= {t.id for t in tg if isinstance(t, ast.Name)}
+            self._clsattrs, self._clsattrs_n = names, len(self.mods)
+        return attr in self._clsattrs
+
     def attr_assigned(self, attr):
         """some loaded module assigns an attribute of this name (`x.attr = ...`, or a class-body field)"""
         if not hasattr(self, "_assigned") or self._assigned_n != len(self.mods):
@@ -1020,6 +1032,7 @@ class Translator:
 
     def reset(self):
         self.var_name = {}  # IR variable of a Python name -> (function node, name)
+        self.ever_bound = set()  # IR variables some emitted statement binds (so far)
         self.nvars = 0
         self.nsites = 0
         self.diag = []      # unknown calls etc.
@@ -1379,6 +1392,7 @@ class Scope:
         return vs
 
     def bind(self, out, v, val: Val, weak=False):
+        self.tr.ever_bound.add(v)
         arr, cont = self.is_arr(val), self.is_cont(val)
         own = set(val.own) | ({v} if weak else set())
         if val.unknown:
@@ -1545,9 +1559,11 @@ class Scope:
                     return
             if mode == "try":
                 sub = []
-                arr0 = set(self.arr)
+                arr0, bound0 = set(self.arr), set(self.tr.ever_bound)
                 self.stmt(s, sub, stack, mode)
-                self.arr = arr0 & self.arr
+                # the statement may not have completed: a fact survives if it held before too, or is about a variable
+                # that had no binding before (then either it is still unbound or it is what this statement made it)
+                self.arr = (arr0 & self.arr) | {f for f in self.arr if (f if type(f) is int else f[1]) not in bound0}
                 out.append(["branch", ["seq", sub], ["exc"]])
             else:
                 self.stmt(s, out, stack, mode)
@@ -1681,24 +1697,27 @@ class Scope:
             self.block(s.body, out, stack, jl)
         elif isinstance(s, ast.Try):
             # any prefix of the body may have run when a handler starts: every statement skippable
-            arr0 = set(self.arr)
             body = []
             self.block(s.body, body, stack, "try")
-            self.arr = arr0 & self.arr
             out.append(["seq", body])
+            facts_body = set(self.arr)  # hold at every point of the body where the variables concerned are bound
+            ends = []
             for h in s.handlers:
                 hb = []
+                self.arr = set(facts_body)
                 if h.type is not None:
                     self.expr(h.type, hb, stack)
                 if h.name:
                     self.bind(hb, self.var(h.name), FRESH)
                 self.block(h.body, hb, stack, jl)
-                self.arr = arr0 & self.arr
+                ends.append(set(self.arr))
                 out.append(["branch", ["seq", hb], ["skip"]])
             ob = []
+            self.arr = set(facts_body)
             self.block(s.orelse, ob, stack, "try" if s.finalbody or jl == "try" else jl)
-            self.arr = arr0 & self.arr
             out.append(["seq", ob])
+            for e_ in ends:
+                self.arr = self.arr & e_
             self.block(s.finalbody, out, stack, jl)
         elif isinstance(s, ast.FunctionDef):
             self.localfuncs[s.name] = s  # nested helper: inlined at its call sites (closure = this scope)
@@ -1986,6 +2005,12 @@ class Scope:
         if is_fld_arr:
             view = False  # a data attribute of a pewlib object
         val = self.elem(out, base, self.tr.label(e.attr), view=view)
+        if self.tr.prog.class_level_attr(e.attr) and not is_fld_arr:
+            # may be the class's own attribute: one object shared through the module state, whoever loads it
+            g = Val([self.tr.gvar])
+            shared = self.elem(out, g, self.tr.label(e.attr), view=False)
+            self.store(out, g, self.tr.label(e.attr), shared)
+            val = val | shared
         if is_fld_arr:
             for v in val.own:
                 self.arr.add(v)
@@ -2082,14 +2107,21 @@ class Scope:
         names = [x.arg for x in a.posonlyargs + a.args]
         extra = [x.arg for x in a.kwonlyargs] + [y.arg for y in (a.vararg, a.kwarg) if y]
         anyv = union(argvals)
+        dflt_of = {}
+        for x, d in zip(reversed(a.posonlyargs + a.args), reversed(a.defaults)):
+            dflt_of[x.arg] = d
+        for x, d in zip(a.kwonlyargs, a.kw_defaults):
+            if d is not None:
+                dflt_of[x.arg] = d
+        dvals = {n: self.expr(d, body, stack) for n, d in dflt_of.items()}  # evaluated in the defining scope
         for i, n in enumerate(names + extra):
             saved[n] = sc.vars.get(n)
             v = argvals[i] if i < len(argvals) and i < len(names) and len(argvals) <= len(names) else anyv
+            if n in dvals and not (i < len(argvals) and i < len(names) and len(argvals) <= len(names)):
+                v = v | dvals[n]  # not (certainly) passed: the default
             if n in (a.vararg.arg if a.vararg else None, a.kwarg.arg if a.kwarg else None):
                 v = self.container(body, [anyv])
             sc.vars[n] = self.tmp(body, v)
-        for dflt in list(a.defaults) + [k for k in a.kw_defaults if k is not None]:
-            self.expr(dflt, body, stack)
         saved_vars = self.vars
         self.vars = sc.vars
         try:
@@ -2697,9 +2729,9 @@ class Scope:
                 c = self.container(out, extra + ([kwargs["**"]] if "**" in kwargs else []))
                 sc.bind(out, pvars[name], c)
             elif "**" in kwargs:
-                sc.bind(out, pvars[name], kwargs["**"] | self.default_val(mod, defaults.get(name), out))
+                sc.bind(out, pvars[name], kwargs["**"] | self.default_val(mod, defaults.get(name), out, closure, stack))
             else:
-                sc.bind(out, pvars[name], self.default_val(mod, defaults.get(name), out))
+                sc.bind(out, pvars[name], self.default_val(mod, defaults.get(name), out, closure, stack))
         for name, ann in params:
             sc.vars[name] = pvars[name]
             sc.localfuncs.pop(name, None)
@@ -2734,11 +2766,13 @@ class Scope:
         self.set_tag(sc.res, None if sc.res_arr else rtag)
         return Val([sc.res], False, sc.res_arr, sc.res_cont and bool(sc.res_tags) and not sc.res_arr, rtag)
 
-    def default_val(self, mod, node, out):
+    def default_val(self, mod, node, out, closure=None, stack=None):
         """the value of a parameter default: constants, or part of the module's state (a mutable default is shared by
-        all calls)"""
+        all calls); of a nested function: evaluated in the enclosing scope"""
         if node is None or isinstance(node, ast.Constant):
             return FRESH
+        if closure is not None:
+            return closure.expr(node, out, stack) | Val([self.tr.gvar])
         if isinstance(node, (ast.Tuple,)) and all(isinstance(x, ast.Constant) for x in node.elts):
             return FRESH
         if isinstance(node, (ast.Name, ast.Attribute)):
